@@ -187,6 +187,8 @@ def run(tier, chk):
     # the same meaning must come out when identical sub-trees are one shared Python object (as user code and the lifter build them)
     td = sharing_trees(rnd, 2500 if quick else 30000)
     run_space(chk, td, rnd, 8 if quick else 16, [], 'd:trees with repeated sub-trees, built as DAGs', shared=True)
+    ti = same_text_trees(rnd, 1600 if quick else 16000)
+    run_space(chk, ti, rnd, 4, [], 'i:expressions that print alike and differ in inner widths, simplified by one process', keep_unchanged=1.0)
     th = prefix_twin_trees(rnd, 1500 if quick else 15000)
     run_space(chk, th, rnd, 8 if quick else 16, [], 'h:operands that are n-ary operators with prefix-related operand lists')
     # concatenations with constants typed wider than their slot, and inputs taken from the simplifier's own output language
@@ -364,6 +366,35 @@ def prefix_twin_trees(rnd, n):
         else:
             t = {'k': 'op', 'w': w, 'o': r, 'u': 0, 'a': pair}
         out.append(t)
+    return out
+
+
+def same_text_trees(rnd, n):
+    """groups of trees that PRINT alike but differ in the width of their inner operands (the same constant expression built at
+    16, 32 and 64 bits and sliced to its low byte / word): adjacent in the list, so that one worker process simplifies a whole
+    group - a result remembered under the text of an expression must not be handed to another expression"""
+    vals = [0, 1, 2, 8, 15, 16, 0xFF, 0x100, 0x7FFF, 0x8000, 0xFFFF, 0x10000, 0x7FFFFFFF, 0x80000000, 0xFFFFFFFF]
+    out = []
+    while len(out) < n:
+        shape = rnd.choice(['bin', 'bin', 'nest', 'shift', 'cond'])
+        a, b, c3 = rnd.choice(vals), rnd.choice(vals), rnd.choice(vals)
+        o1, o2 = rnd.choice(['+', '-', '*', '&', '^', '|']), rnd.choice(['+', '-', '*', '^'])
+        sh = rnd.choice([1, 4, 8, 15, 16, 31])
+        sw = rnd.choice([8, 16])
+        for w in (32, 16, 64, 32):
+            if w <= sw:
+                continue
+            k = lambda v: {'k': 'int', 'w': w, 'v': core.limbs(v & ((1 << w) - 1), w)}
+            op = lambda o, x, y: {'k': 'op', 'w': w, 'o': o, 'u': 0, 'a': [x, y]}
+            if shape == 'bin':
+                t = op(o1, k(a), k(b))
+            elif shape == 'nest':
+                t = op(o2, op(o1, k(a), k(b)), k(c3))
+            elif shape == 'shift':
+                t = op('>>', op(o1, k(a), k(b)), k(sh))
+            else:
+                t = {'k': 'cond', 'w': w, 'a': [op(o1, k(a), k(b)), k(c3), k(a)]}
+            out.append({'k': 'slice', 'w': sw, 'lo': 0, 'hi': sw, 'a': [t]})
     return out
 
 
